@@ -135,6 +135,29 @@ class Recorder:
             rec.states.append(rec.abstract())
             return r
 
+        orig_run = s.run
+
+        def run(self_, f_live=0.01, n_shell=1, n_eff=10000, n_like_max=np.inf, discard_exploration=False, timeout=np.inf,
+                verbose=False):
+            # the events of one run() call for the `Run` model: entry marker with the arguments the bookkeeping sees,
+            # (operations recorded by the wrappers above), return marker with the return value and the float comparison
+            rec.sync_phase()
+            import math
+            mx = '-' if n_like_max == np.inf else str(max(0, int(math.ceil(n_like_max))))
+            rec.ops.append('RUN %d %d %d %s' % (int(n_shell), 1 if discard_exploration else 0, int(self_.n_live), mx))
+            rec.outs.append('ok')
+            rec.states.append(rec.abstract())
+            ret = orig_run(f_live=f_live, n_shell=n_shell, n_eff=n_eff, n_like_max=n_like_max,
+                           discard_exploration=discard_exploration, timeout=timeout, verbose=verbose)
+            rec.sync_phase()
+            with np.errstate(all='ignore'):
+                ok = bool(self_.n_eff >= n_eff)
+            rec.ops.append('END %d %d' % (1 if ret else 0, 1 if ok else 0))
+            rec.outs.append('ok')
+            rec.states.append(rec.abstract())
+            return ret
+
+        s.run = types.MethodType(run, s)
         s.add_bound = types.MethodType(add_bound, s)
         s.sample_shell = types.MethodType(sample_shell, s)
         s.add_samples = types.MethodType(add_samples, s)
@@ -236,7 +259,7 @@ class Recorder:
         return '%s %d | P %s | %s' % ('corefull' if self.full else 'core', self.s.n_batch, pts, ' | '.join(self.ops))
 
 
-INV_OK = 'inshells=true tlast=true nodup=true aligned=true counts=true shape=true'
+INV_OK = 'inshells=true tlast=true nodup=true aligned=true counts=true shape=true run=true'
 
 
 def compare(rec, reply):
